@@ -288,3 +288,36 @@ pub fn guard<T, F: FnOnce() -> T + std::panic::UnwindSafe>(f: F) -> Result<T, St
 pub fn silence_panics() {
     std::panic::set_hook(Box::new(|_| {}));
 }
+
+/// xorshift64* PRNG (no external crate needed; seeded from VERIF_SEED).
+pub struct Rng(pub u64);
+impl Rng {
+    pub fn new(seed: u64) -> Self {
+        Rng(seed.wrapping_mul(0x9E3779B97F4A7C15) | 1)
+    }
+    pub fn next(&mut self) -> u64 {
+        let mut x = self.0;
+        x ^= x >> 12;
+        x ^= x << 25;
+        x ^= x >> 27;
+        self.0 = x;
+        x.wrapping_mul(0x2545F4914F6CDD1D)
+    }
+    pub fn below(&mut self, n: usize) -> usize {
+        (self.next() % (n as u64)) as usize
+    }
+    pub fn pick<'a, T>(&mut self, v: &'a [T]) -> &'a T {
+        &v[self.below(v.len())]
+    }
+}
+
+/// Name of a concrete character in the specification's vocabulary.
+pub fn char_name(c: char) -> Option<String> {
+    match c {
+        '\u{142}' => Some("U2".into()),
+        '\u{20AC}' => Some("U3".into()),
+        '\u{1F600}' => Some("U4".into()),
+        c if c.is_ascii() => Some(c.to_string()),
+        _ => None,
+    }
+}
